@@ -496,6 +496,15 @@ def check_geometry(i0, i1, i2, i3, axis_i, angle_i, shape_i):
     for name, g, want in zip(("distance", "angle", "dihedral"), ref, (dist, ang, dih)):
         if abs(g - want) > 2e-4:
             return f"{name} with a roomy box differs from the plain value: {g} vs {want}"
+    # single positions give single results, with and without a box
+    for bx in (None, big, np.diag([30.0, 28.0, 26.0]).astype(np.float32)):
+        shapes = (np.shape(struc.displacement(c0[0], c0[1], box=bx)), np.shape(struc.distance(c0[0], c0[1], box=bx)),
+                  np.shape(struc.angle(c0[0], c0[1], c0[2], box=bx)), np.shape(struc.dihedral(c0[0], c0[1], c0[2], c0[3], box=bx)))
+        if shapes != ((3,), (), (), ()):
+            return f"single positions ({'no box' if bx is None else 'box'}): result shapes {shapes} of displacement / distance / angle / dihedral"
+        a0, a1 = struc.Atom(c0[0]), struc.Atom(c0[1])
+        if np.shape(struc.displacement(a0, a1, box=bx)) != (3,) or np.shape(struc.distance(a0, a1, box=bx)) != ():
+            return f"Atom arguments ({'no box' if bx is None else 'box'}): result shapes"
     for which in range(4):
         for lat in ((1, 0, 0), (0, -1, 0), (0, 0, 1), (-1, 1, -1)):
             cs = c0.copy()
